@@ -101,6 +101,7 @@ type Invariant struct {
 	Src    string
 	Where  string
 	History bool // two-state: old() refers to the pre-state of a call
+	Owned   bool // representation invariant owned by the type: assumed by its methods, not demanded from callers
 }
 
 type GhostVar struct {
@@ -604,6 +605,11 @@ func (c *Contracts) LoadFile(path string) error {
 				return fail(l, "invariant <name> (<binder> <type>): <expr>")
 			}
 			name := strings.TrimSpace(r[:i])
+			owned := false
+			if strings.HasPrefix(name, "owned ") {
+				owned = true
+				name = strings.TrimSpace(name[6:])
+			}
 			bt := strings.Fields(r[i+1 : j])
 			if len(bt) != 2 {
 				return fail(l, "invariant binder")
@@ -612,7 +618,7 @@ func (c *Contracts) LoadFile(path string) error {
 			if err != nil {
 				return fail(l, "%v", err)
 			}
-			c.Invs = append(c.Invs, &Invariant{Name: name, Type: bt[1], Binder: bt[0], Expr: e, Props: props, Src: r, Where: l.where, History: kw == "history"})
+			c.Invs = append(c.Invs, &Invariant{Name: name, Type: bt[1], Binder: bt[0], Expr: e, Props: props, Src: r, Where: l.where, History: kw == "history", Owned: owned})
 		case "const":
 			props, r := splitProps(rest)
 			if props == nil {
